@@ -11,6 +11,7 @@ from ..exact import Unsupported
 from ..storejudge import decode_store, expected_post_codes, in_core_domain, STORE_OPS, init_arguments, as_library_sees, UNDERFLOW_KEY
 
 from ..monitor import CallbackRecorder
+from .. import reducejudge as RJ
 
 ID = 'C04'
 TECHNIQUE = "runtime monitoring: recording callbacks (the library's own notification points) + status snapshots along write / reset / resize / arithmetic histories, judged against a shadow flag model; sticky-flag monitor (U3)"
@@ -262,14 +263,15 @@ def make_judges(ctx):
         ctx.judged(('propagation', route, carried, tuple(bool(s.status.get('inaccuracy')) for s in srcs)), carried, None)
         if carried:
             ctx.floor_hit(('propagation', route.split(':')[0]))
-    return [write_judge, resize_judge, reset_judge, sticky_judge, propagation_judge]
+    return [write_judge, resize_judge, reset_judge, sticky_judge, propagation_judge, RJ.make_judge(ctx, ctx.mon.Fxp, 'flags')]
 
 
 def floors(tier):
     cells = [('raised', k, f) for k in ('write', 'indexed', 'constructor', 'resize') for f in _FL] + [('raised', 'constructor_like', 'inaccuracy')]
     cells += [('callbacks', k) for k in ('write', 'indexed', 'resize')] + [('callbacks-changed',)]
     cells += [('reset', True), ('propagation', 'binary'), ('propagation', 'function'), ('propagation', 'numpy'), ('propagation', 'method'),
-              ('propagation', 'Fxp(x)'), ('propagation', 'Fxp(x, like=)'), ('huge-integer-write',), ('propagation-workload', 'configured-output')]
+              ('propagation', 'Fxp(x)'), ('propagation', 'Fxp(x, like=)'), ('huge-integer-write',), ('propagation-workload', 'configured-output'),
+              ('reduction-flags', 'beyond-int64'), ('reduction-flags', 'moderate')]
     return cells
 
 
@@ -288,6 +290,8 @@ def cases(tier, seed):
     n = 400 if tier == 'quick' else 8000
     for i in range(n):
         yield {'k': 'propagate', 'i': i}
+    for i in range(60 if tier == 'quick' else 1500):
+        yield {'k': 'reduce', 'i': i}
 
 
 def _try(f):
@@ -302,6 +306,8 @@ def run_case(case, ctx):
     fm = ctx.mon.fxpmath
     rec = ctx.mon.recorder
     k = case['k']
+    if k == 'reduce':
+        return RJ.workload(Fxp, fm, ctx.rng_for('reduce', case['i']), _try)
     if k == 'bounds':
         s, w, nf, r, o = case['signed'], case['n_word'], case['n_frac'], case['rounding'], case['overflow']
         lo, hi = R.code_range(s, w)
